@@ -17,7 +17,6 @@
    S-model (specification): first_by / first_occ = "first appearance order, once".
    Definitions only; proofs are in Deps/Proofs.v. *)
 From DJC Require Import Lib.Base.
-From DJC Require Gen.C04.
 Import Coq.Strings.String.StringSyntax.
 Local Delimit Scope string_scope with string.
 Local Open Scope N_scope.
@@ -457,9 +456,9 @@ Definition empty_exec : exec := {| x_loaded_css := []; x_loaded_js := []; x_tolo
 Definition declared (l : list tok) : exec := match exec_of l with Some x => x | None => empty_exec end.
 
 (* ---------------------------------------------------------------------------------------- *)
-(* PLACEHOLDER_REGEX                                                                         *)
-(*  <link name="CSS_PLACEHOLDER"(?: data-djc-css-\w{6}="")?(?: data-djc-id-\w{6}="")*/?>     *)
-(* |<script name="JS_PLACEHOLDER"(?: data-djc-css-\w{6}="")?(?: data-djc-id-\w{6}="")*></script> *)
+(* PLACEHOLDER_REGEX (after fix be574c3: id and css attributes in any order)                  *)
+(*  <link name="CSS_PLACEHOLDER"(?: data-djc-(?:id|css)-\w{6}="")*/?>                         *)
+(* |<script name="JS_PLACEHOLDER"(?: data-djc-(?:id|css)-\w{6}="")*></script>                 *)
 (* ---------------------------------------------------------------------------------------- *)
 Definition css_ph_open : str := s2n "<link name=""CSS_PLACEHOLDER"""%string.
 Definition js_ph_open : str := s2n "<script name=""JS_PLACEHOLDER"""%string.
@@ -477,20 +476,10 @@ Definition strip_attr (pre s : str) : option str :=
   | _ => None
   end.
 
-(* (...)* greedy; returns the rest and the number of attributes.  fuel >= length s suffices. *)
-Fixpoint strip_ids (fuel : nat) (s : str) : str * nat :=
-  match fuel with
-  | O => (s, O)
-  | S f => match strip_attr attr_id s with
-           | Some r => let '(r', n) := strip_ids f r in (r', S n)
-           | None => (s, O)
-           end
-  end.
-
 Definition attr_len : nat := 22.   (* length " data-djc-id-" + 6 + 3 *)
 Definition attr_css_len : nat := 23.
 
-(* (?: data-djc-(?:id|css)-\w{6}="")* greedy: the rest and the number of bytes matched *)
+(* (?: data-djc-(?:id|css)-\w{6}="")* greedy: the rest and the number of bytes matched.  fuel >= length s suffices. *)
 Fixpoint strip_any (fuel : nat) (s : str) : str * nat :=
   match fuel with
   | O => (s, O)
@@ -503,16 +492,8 @@ Fixpoint strip_any (fuel : nat) (s : str) : str * nat :=
            end
   end.
 
-(* which of the two shapes PLACEHOLDER_REGEX has (read from the source by harness/gen_c04.py, anchored in Proofs.v):
-   false: (?: data-djc-css-\w{6}="")?(?: data-djc-id-\w{6}="")*     true: (?: data-djc-(?:id|css)-\w{6}="")* *)
-Definition any_order : bool := Gen.C04.placeholder_any_order.
-
 (* the attribute part: the rest and the number of bytes matched *)
-Definition ph_attrs (s1 : str) : str * nat :=
-  if any_order then strip_any (length s1) s1
-  else
-    let '(s2, n1) := match strip_attr attr_css s1 with Some r => (r, attr_css_len) | None => (s1, O) end in
-    let '(s3, n2) := strip_ids (length s2) s2 in (s3, (n1 + n2 * attr_len)%nat).
+Definition ph_attrs (s1 : str) : str * nat := strip_any (length s1) s1.
 
 Definition match_placeholder (s : str) : option (kind * nat) :=
   match strip_prefix css_ph_open s with
@@ -546,13 +527,6 @@ Definition emit_placeholder (k : kind) (attrs : list (bool * str)) (slash : bool
   | KCss => css_ph_open ++ flat_map attr_bytes attrs ++ (if slash then [47] else []) ++ [62]
   | KJs => js_ph_open ++ flat_map attr_bytes attrs ++ js_ph_close
   end.
-(* at most one css attribute, in front of the id attributes *)
-Definition css_first (attrs : list (bool * str)) : bool :=
-  match attrs with
-  | (true, _) :: r => forallb (fun a : bool * str => negb (fst a)) r
-  | _ => forallb (fun a : bool * str => negb (fst a)) attrs
-  end.
-
 (* a render id / css hash as the attribute regex wants it: \w{6} *)
 Definition is_word6 (s : str) : bool :=
   match s with
@@ -652,9 +626,8 @@ Definition render_deps (ser : tok -> str) (tbl : table) (t : rtype) (content : s
 (* a placeholder as it reaches render_dependencies *)
 Record phspec := { ph_kind : kind; ph_attrl : list (bool * str); ph_slash : bool }.
 Definition ph_bytes (p : phspec) : str := emit_placeholder (ph_kind p) (ph_attrl p) (ph_slash p).
-(* attribute values are \w{6}; with the older pattern the css attribute must come first *)
-Definition ph_wfb (p : phspec) : bool :=
-  forallb (fun a : bool * str => is_word6 (snd a)) (ph_attrl p) && (any_order || css_first (ph_attrl p)).
+(* attribute values are \w{6} *)
+Definition ph_wfb (p : phspec) : bool := forallb (fun a : bool * str => is_word6 (snd a)) (ph_attrl p).
 Definition ph_wf (p : phspec) : Prop := ph_wfb p = true.
 
 (* a marker-free document: text, placeholder, text, placeholder, ..., text *)
